@@ -17,6 +17,7 @@ from collections.abc import Iterator
 from typing import Any
 
 import elementpath.aliases as ta
+from elementpath.exceptions import ElementPathTypeError
 
 from elementpath.namespaces import XML_ID, XML_LANG
 from elementpath.datatypes import AnyURI, Float, DayTimeDuration, YearMonthDuration, \
@@ -457,7 +458,11 @@ def evaluate__sum(self: XPathFunction, context: ta.ContextType = None) -> ta.One
             return math.nan
         elif isinstance(context, XPathSchemaContext):
             return []
-        raise self.error('FORG0006') from None
+        # the typed value of a node (xs:untypedAtomic) that is not castable to xs:double:
+        # err:FORG0001 as for xs:untypedAtomic items and as fn:avg, fn:max and fn:min report it;
+        # the exception keeps the TypeError class that callers of fn:sum already catch
+        error = self.error('FORG0001', 'invalid value for cast to xs:double')
+        raise ElementPathTypeError(error.message, error.code, self) from None
 
     if not values:
         zero = 0 if len(self) == 1 else self.get_argument(context, index=1)
